@@ -1,7 +1,9 @@
 package main
 
 import (
+	"bytes"
 	"math"
+	"math/big"
 
 	"github.com/gcash/bchutil/hdkeychain"
 )
@@ -294,6 +296,28 @@ func runC06(c *Ctx) {
 				}
 			}
 		}
+	}
+	// every private-key identifier byte (a custom network): the length of the text depends on it (50..52 characters)
+	for id := 0; id < 256; id++ {
+		if !c.Thorough() && id > 0x22 && id%16 != 0 && id != 0x80 && id != 0xef && id != 0xff {
+			continue
+		}
+		for _, comp := range []bool{false, true} {
+			e := c.Call(Event{"op": "Wif", "key": ints(scalars[(id*2+3)%len(scalars)]), "net": 1, "idbyte": id, "compressed": comp})
+			c.Call(Event{"op": "WifDecode", "s": str(gStr(e, "str"))})
+		}
+	}
+	// key bytes outside [1, n-1] with a valid checksum: whatever is accepted must re-encode to itself
+	for _, kb := range [][]byte{secN.Bytes(), new(big.Int).Add(secN, big.NewInt(1)).Bytes(), new(big.Int).Add(secN, big.NewInt(0x1234567)).Bytes(), bytes.Repeat([]byte{0xff}, 32), make([]byte, 32)} {
+		for _, id := range []byte{0x80, 0xef} {
+			body := append([]byte{id}, kb...)
+			c.Call(Event{"op": "WifDecode", "s": str(b58WithChecksum(body))})
+			c.Call(Event{"op": "WifDecode", "s": str(b58WithChecksum(append(body, 1)))})
+		}
+	}
+	// the flag of a WIF value changed after it was encoded / decoded
+	for k := 0; k < c.Pick(24, 200); k++ {
+		c.Call(Event{"op": "WifMutate", "key": ints(scalars[k%len(scalars)]), "net": 1 + k%len(nets), "compressed": k%2 == 0, "via": []string{"new", "decode"}[(k/2)%2]})
 	}
 	// marker byte over all values, every decoded length 0..45, with valid checksums
 	for mk := 0; mk < 256; mk++ {
